@@ -28,6 +28,8 @@ import time
 from concurrent.futures import ThreadPoolExecutor
 from typing import Any
 
+import numpy as np
+
 from ptverif import tlc
 from ptverif.common import NCPU, MachineryError, Run, scratch, seed
 
@@ -525,6 +527,83 @@ def _work_t3(args: tuple) -> dict:
 
 # --------------------------------------------------------------------------
 
+def fncache_stage(run: Run, tier: str) -> dict:
+    """Function definitions (spec/PtFnCache.tla): (1) TLC model-checks the design -- one
+    function cache per mapper family -- over every call DAG of <= 4 definitions, and must
+    REFUTE the deviation 'a fresh cache per body' (negative control); (2) the
+    function-definition events of every entry point on call DAGs of definitions (Fibonacci
+    nesting, diamonds, the function witnesses, traced programs of C12's generator) are
+    replayed through the specification's actions (module PtFnCacheTrace)."""
+    from checks import c12
+    from ptverif import fncache
+    out: dict[str, Any] = {}
+    mc = tlc.run_tlc("PtFnCache", "PtFnCache.cfg", workers=min(NCPU, 8), timeout=900)
+    if mc.error or mc.violated:
+        raise MachineryError(f"PtFnCache: the design does not satisfy its own invariants: "
+                             f"{(mc.error or str(mc.violated))[:300]}")
+    neg = tlc.run_tlc("PtFnCache", "PtFnCacheFresh.cfg", workers=2, timeout=300)
+    if not neg.violated:
+        raise MachineryError("PtFnCache: the negative control (a fresh function cache per "
+                             "body) was NOT refuted -- OncePerDefinition is vacuous")
+    out["fncache_design_states"] = mc.distinct
+    out["fncache_negative_control_refuted"] = True
+    _winit({})
+    H = _W["H"]
+    graphs = dict(fncache.nested_witnesses())
+    rng = np.random.default_rng(seed() + 13)
+    want, tries = (25 if tier == "quick" else 250), 0
+    while sum(1 for k in graphs if k.startswith("traced")) < want and tries < want * 6:
+        tries += 1
+        p = c12.random_call_program(rng, f"q{tries}")
+        if p is None:
+            continue
+        pb = c12.PtCalls()
+        pb.mode = "trace"
+        pb.run(p)
+        import pytato as pt
+        if pb.rejections:
+            continue
+        outs = {k: v for k, v in pb.outs().items() if isinstance(v, pt.Array)}
+        if not outs:
+            continue
+        graphs[f"traced{tries}"] = pt.make_dict_of_named_arrays(outs)
+    # repr() truncates at depth 3 and keys by (node, depth): documented, outside this rule
+    entries = {k: v for k, v in H.entry_points().items() if k != "repr"}
+    recs, status = [], {}
+    for gname, root in graphs.items():
+        for ename, fn in entries.items():
+            if gname.startswith("traced") and ename in (
+                    "generate_loopy", "generate_numpy_like", "codegen.preprocess"):
+                continue
+            r = fncache.record(f"{gname}|{ename}", fn, root)
+            st = r["status"].split(":")[0]
+            status[st] = status.get(st, 0) + 1
+            recs += r["records"]
+    val = tlc.validate_records("PtFnCacheTrace", "PtFnCacheTrace.cfg", recs, timeout=900,
+                               shards=min(NCPU, 8))
+    byid = {r["id"]: r for r in recs}
+    okfam = {rid.rsplit("/", 1)[0] for rid, v in val.verdicts.items() if v == "ok"}
+    for rid, v in sorted(val.verdicts.items()):
+        # (a family is judged under both numberings of the definitions, by == and by
+        # identity: it keys its function cache one way or the other)
+        if v == "ok" or rid.rsplit("/", 1)[0] in okfam or rid.endswith("/id"):
+            continue
+        gname, rest = rid.split("|", 1)
+        ename = rest.rsplit("#", 1)[0]
+        run.violation(f"fncache|{ename}|{v}|{gname if not gname.startswith('traced') else ''}",
+                      f"{ename} on the call DAG {gname}: its function-definition events are "
+                      f"not a behaviour of PtFnCache (clause {v})",
+                      record={"case": f"fncache/{gname}", "entry": ename, "trace": byid[rid]},
+                      observed=v,
+                      sig={"mapper": ename, "clause": v.split(":")[0], "detail": v,
+                           "nodekind": "FunctionDefinition", "edgekind": "function",
+                           "exc": ""})
+    out.update({"fncache_graphs": len(graphs), "fncache_traces": len(recs),
+                "fncache_status": status, "fncache_trace_states": val.states,
+                "fncache_events": sum(len(r["events"]) for r in recs)})
+    return out
+
+
 def report(run: Run, f: dict, byid: dict) -> None:
     sig = {"mapper": f["mapper"].split("#")[0], "clause": f["clause"].split(":")[0],
            "detail": f["clause"], "nodekind": f.get("nodekind", ""),
@@ -715,6 +794,8 @@ def main(tier: str, only: dict | None = None) -> int:
         "entry_classes": stats.get("entry_classes", {}),
         "entry_exceptions": stats.get("entry_exceptions", {}),
     })
+    if only is None:
+        run.coverage.update(fncache_stage(run, tier))
     for r in uniq[:2]:
         run.sample(r)
     run.assumptions += [
@@ -821,5 +902,38 @@ def selftest(tier: str) -> int:
                           spec_dir=d)
         print(f"spec sabotage [{inv}]: violated={res.violated}")
         ok = ok and inv in res.violated
+    # (3) function definitions (PtFnCache): a real trace is accepted; a hit turned into a
+    # second entry, a dropped body (its callee never asked), a hit of a definition that
+    # was never mapped and a return of another definition are rejected; the deviation
+    # "fresh cache per body" is refuted by TLC
+    from ptverif import fncache
+    fw = fncache.nested_witnesses()["diamond"]
+    import pytato as pt
+    base = [r for r in fncache.record("good", pt.transform.deduplicate, fw)["records"]
+            if r["id"].endswith("/eq")][0]
+    fbad = []
+
+    def fmut(name: str, f: Any) -> None:
+        b = copy.deepcopy(base)
+        b["id"] = name
+        f(b["events"])
+        fbad.append(b)
+    hit = next(k for k, e in enumerate(base["events"]) if e["ev"] == "hit")
+    fmut("bad_hit_becomes_second_entry", lambda ev: ev.__setitem__(
+        slice(hit, hit + 1), [{"ev": "enter", "g": ev[hit]["g"]},
+                              {"ev": "return", "g": ev[hit]["g"]}]))
+    inner = next(k for k, e in enumerate(base["events"])
+                 if e["ev"] == "enter" and base["events"][k - 1]["ev"] == "enter")
+    fmut("bad_callee_of_a_body_never_asked", lambda ev: ev.__delitem__(slice(inner, inner + 2)))
+    fmut("bad_hit_of_unmapped_definition", lambda ev: ev.insert(0, {"ev": "hit", "g": 1}))
+    fmut("bad_return_of_another_definition", lambda ev: ev.__setitem__(
+        inner + 1, {"ev": "return", "g": ev[0]["g"]}))
+    fval = tlc.validate_records("PtFnCacheTrace", "PtFnCacheTrace.cfg", [base, *fbad], shards=1)
+    print("function-cache trace binding:", dict(fval.verdicts))
+    ok = ok and fval.verdicts[base["id"]] == "ok" and all(
+        fval.verdicts[b["id"]] != "ok" for b in fbad)
+    neg = tlc.run_tlc("PtFnCache", "PtFnCacheFresh.cfg", workers=2, timeout=300)
+    print("PtFnCache, fresh cache per body: violated =", neg.violated)
+    ok = ok and "OncePerDefinition" in neg.violated
     print("selftest", "passed" if ok else "FAILED")
     return 0 if ok else 2
